@@ -135,7 +135,8 @@ func (c *Context) Copy() *Context {
 	ctx.index = abortIndex
 	ctx.aborted = true
 	// Notice: the backing array of c.Errors is reused for the next request (see Reset()),
-	// the copy must not share it.
+	// the copy must not share it - also not its spare capacity when there are no errors yet.
+	ctx.Errors = nil
 	if len(c.Errors) > 0 {
 		ctx.Errors = append([]error(nil), c.Errors...)
 	}
